@@ -391,6 +391,52 @@ async def names_and_errors(cx, rig, rnd):
             s = rig.session("N")
 
 
+async def several_messages_in_one_fetch(cx, rig, s, rnd):
+    """One FETCH that names every message of a mailbox, with partial items whose
+    end lies inside some messages and beyond the end of others, and with several
+    sections at once: every message's answer is the slice of that message's own
+    section (what was answered for one message has no bearing on the next)."""
+    for box in ("appended", "filed"):
+        if s.wire_error or s.writer.closed:
+            s = rig.session("M")
+        r = await s.cmd("SELECT " + box)
+        if not r.ok:
+            continue
+        rf = await s.cmd("UID FETCH 1:* (UID BODY.PEEK[] BODY.PEEK[TEXT] BODY.PEEK[HEADER])")
+        if not rf.ok:
+            continue
+        whole = {}
+        for n, d in rf.fetches():
+            if "UID" in d and d.get("BODY[]") is not None:
+                whole[d["UID"]] = {"": bytes(d["BODY[]"]), "TEXT": bytes(d.get("BODY[TEXT]") or b""), "HEADER": bytes(d.get("BODY[HEADER]") or b"")}
+        if len(whole) < 2:
+            continue
+        sizes = sorted(len(v[""]) for v in whole.values())
+        tsizes = sorted(len(v["TEXT"]) for v in whole.values())
+        cands = [(0, sizes[0] + 1), (0, sizes[len(sizes) // 2]), (3, sizes[0]), (sizes[0] // 2, sizes[-1]), (0, 1), (sizes[0], 10)]
+        for (o, c) in cands[: 4] + [rnd.choice(cands)]:
+            o2, c2 = rnd.choice([(0, tsizes[0] + 1), (1, max(1, tsizes[len(tsizes) // 2])), (0, max(1, tsizes[-1] // 2))])
+            verb = rnd.choice(["FETCH 1:*", "UID FETCH 1:*"])
+            rp = await s.cmd(f"{verb} (UID BODY.PEEK[]<{o}.{c}> BODY.PEEK[TEXT]<{o2}.{c2}> BODY.PEEK[HEADER]<0.{c}>)")
+            if not rp.ok:
+                cx.viol(["C16", "C06"], "partial-fetch-failed", f"{box}: {verb} <{o}.{c}>: {rp.brief()}")
+                continue
+            for n, d in rp.fetches():
+                w_ = whole.get(d.get("UID"))
+                if w_ is None:
+                    continue
+                for sec, (oo, cc) in (("", (o, c)), ("TEXT", (o2, c2)), ("HEADER", (0, c))):
+                    got = [v for k_, v in d.items() if k_.startswith(f"BODY[{sec}]<")]
+                    if not got:
+                        continue
+                    cx.inc("eq_partial_in_multi_message_fetch")
+                    want = w_[sec][oo : oo + cc]
+                    if bytes(got[0] or b"") != want:
+                        cx.viol(["C16"], "partial-is-not-the-slice", f"{box} uid {d.get('UID')} in one {verb} over {len(whole)} messages: [{sec}]<{oo}.{cc}> gave {len(bytes(got[0] or b''))} octets, "
+                                         f"the slice of this message's section ({len(w_[sec])} octets) has {len(want)}", shape="multi-message-fetch")
+                        break
+
+
 async def script(loop, ctx):
     k = ctx["script"]
     rnd = rng(ctx["seed"], "msg", k)
@@ -460,6 +506,7 @@ async def script(loop, ctx):
                 if s.writer.closed is False and "Unhandled" in (ra.tagged.text or ""):
                     cx.viol(["C06", "C16"], "append-unhandled-exception", f"{tagbase}: {ra.brief()}", shape=m["shape"], klass=m["klass"])
             infos.append({"shape": m["shape"], "klass": m["klass"], "hostile": m.get("hostile"), "id": m.get("cid") or m.get("name")})
+        await several_messages_in_one_fetch(cx, rig, s, rnd)
         if k % 4 == 0:
             await names_and_errors(cx, rig, rnd)
         for sess in rig.sessions:
